@@ -76,6 +76,9 @@ type TCP struct {
 	Running          int  // handlers currently running
 	ServeReturned    bool
 	RunningAtReturn  int  // handlers still running when StreamServe returned
+	// FailHandler: the handling of a connection from this remote address fails (panics) before the
+	// stream handler runs: the recovery path of StreamServe
+	FailHandler func(remote string) bool
 	WrapMetrics      func(conn transport.StreamConn, rec *ConnRec) service.TCPConnMetrics
 	shared           service.StreamListener
 }
@@ -112,6 +115,9 @@ func (w *TCP) Start() {
 				w.Running--
 				rec.HandleReturnedAt = vrt.NowQuiet().Sub(vrt.Epoch)
 			}()
+			if w.FailHandler != nil && w.FailHandler(rec.Remote) {
+				panic("injected failure while handling a connection")
+			}
 			var m service.TCPConnMetrics = rec
 			if w.WrapMetrics != nil {
 				m = w.WrapMetrics(conn, rec)
@@ -149,6 +155,9 @@ func (w *TCP) StartShared() {
 				w.Running--
 				rec.HandleReturnedAt = vrt.NowQuiet().Sub(vrt.Epoch)
 			}()
+			if w.FailHandler != nil && w.FailHandler(rec.Remote) {
+				panic("injected failure while handling a connection")
+			}
 			var m service.TCPConnMetrics = rec
 			if w.WrapMetrics != nil {
 				m = w.WrapMetrics(conn, rec)
